@@ -25,31 +25,49 @@ Proof.
   intros s s' M E Fl H x Hx. specialize (H x Hx). unfold settled_at, flagged in *. rewrite M, E, Fl. exact H.
 Qed.
 
-Lemma settled_clean : forall s k, settled s -> settled (set_mem s k (clean (get (st_mem s) k))).
+Lemma settled_upd : forall s k r', settled s ->
+  res_value r' = res_value (get (st_mem s) k) -> res_sig r' = res_sig (get (st_mem s) k) ->
+  res_computedAt r' = res_computedAt (get (st_mem s) k) ->
+  drop_single (res_deps r') = drop_single (res_deps (get (st_mem s) k)) ->
+  res_builtAt (get (st_mem s) k) <= res_builtAt r' -> res_builtAt r' <= st_epoch s ->
+  settled (set_mem s k r').
 Proof.
-  intros s k H x Hx. specialize (H x Hx). unfold settled_at in *. cbn [set_mem st_mem st_epoch].
-  assert (G : forall y, res_computedAt (get (update (st_mem s) k (clean (get (st_mem s) k))) y) = res_computedAt (get (st_mem s) y)).
+  intros s k r' H Ev Es Ec Ed Eb1 Eb2 x Hx. specialize (H x Hx). unfold settled_at in *. cbn [set_mem st_mem st_epoch].
+  assert (G : forall y, res_computedAt (get (update (st_mem s) k r') y) = res_computedAt (get (st_mem s) y)).
   { intros y. destruct (N.eq_dec y k) as [->|Hy]; [now rewrite get_update_same | now rewrite get_update_other]. }
   destruct H as (H1 & H2 & H3 & H4 & H5 & H6).
   destruct (N.eq_dec x k) as [->|Hxk].
-  - rewrite get_update_same. unfold clean at 1 2 3 4 5. cbn [res_builtAt res_sig res_deps]. rewrite drop_single_idem.
-    repeat (split; [assumption|]). intros d Hd. rewrite G. now apply H6.
+  - rewrite get_update_same. split; [lia|]. split; [exact H2|]. split; [now rewrite Es|].
+    split; [unfold valid in *; now rewrite Ev|]. split; [exact Eb2|].
+    intros d Hd. rewrite G. rewrite Ed in Hd. destruct (H6 d Hd) as [A [B|B]]; (split; [exact A|]); [now left | right; lia].
   - rewrite get_update_other by exact Hxk. repeat (split; [assumption|]). intros d Hd. rewrite G. now apply H6.
+Qed.
+
+Lemma settled_clean : forall s k, settled s -> S k -> settled (set_mem s k (clean (get (st_mem s) k))).
+Proof.
+  intros s k H Hk. destruct (H k Hk) as (_ & _ & _ & _ & H5 & _).
+  apply settled_upd.
+  - exact H.
+  - reflexivity.
+  - reflexivity.
+  - reflexivity.
+  - unfold clean. cbn [res_deps]. apply drop_single_idem.
+  - unfold clean. cbn [res_builtAt]. lia.
+  - unfold clean. cbn [res_builtAt]. exact H5.
 Qed.
 
 Lemma settled_validate : forall s k, settled s -> S k ->
   settled (set_mem s k (let r := get (st_mem s) k in mkRes (res_value r) (res_sig r) (res_computedAt r) (st_epoch s) (res_deps r))).
 Proof.
-  intros s k H Hk x Hx. cbv zeta. pose proof (H k Hk) as Kk. specialize (H x Hx). unfold settled_at in *. cbn [set_mem st_mem st_epoch].
-  set (r' := mkRes _ _ _ _ _).
-  assert (G : forall y, res_computedAt (get (update (st_mem s) k r') y) = res_computedAt (get (st_mem s) y)).
-  { intros y. destruct (N.eq_dec y k) as [->|Hy]; [now rewrite get_update_same | now rewrite get_update_other]. }
-  destruct (N.eq_dec x k) as [->|Hxk].
-  - rewrite get_update_same. destruct Kk as (H1 & H2 & H3 & H4 & H5 & H6). unfold r'. cbn [res_builtAt res_sig res_deps].
-    split; [lia|]. split; [exact H2|]. split; [exact H3|]. split; [exact H4|]. split; [lia|].
-    intros d Hd. fold r'. rewrite G. destruct (H6 d Hd) as [A [B|B]]; (split; [exact A|]); [now left | right; lia].
-  - rewrite get_update_other by exact Hxk. destruct H as (H1 & H2 & H3 & H4 & H5 & H6).
-    repeat (split; [assumption|]). intros d Hd. rewrite G. now apply H6.
+  intros s k H Hk. cbv zeta. destruct (H k Hk) as (_ & _ & _ & _ & H5 & _).
+  apply settled_upd.
+  - exact H.
+  - reflexivity.
+  - reflexivity.
+  - reflexivity.
+  - reflexivity.
+  - cbn [res_builtAt]. exact H5.
+  - cbn [res_builtAt]. lia.
 Qed.
 
 Definition null_o (s : state) (o : outcome) : Prop :=
@@ -75,7 +93,7 @@ Proof.
     pose proof (Hnull (k :: stack) s (d_key d) Sd Hs) as N1. destruct (Hens (k :: stack) s (d_key d)) as [A _].
     destruct (ens (k :: stack) s (d_key d)) as [s1|s1 p|] eqn:Ec.
     + destruct (N1 s1 eq_refl) as (l1 & L1 & C1 & Hs1). cbn [frame_o] in A.
-      assert (Hr1 : get (st_mem s1) k = r) by (rewrite (fr_stack _ _ _ _ _ A k) by now left; exact Hr).
+      assert (Hr1 : get (st_mem s1) k = r) by (rewrite (fr_stack _ _ _ _ _ A k) by (now left); exact Hr).
       pose proof (Hs1 k Hk) as Kk1. unfold settled_at in Kk1. rewrite Hr1 in Kk1.
       destruct Kk1 as (_ & _ & _ & _ & _ & K6'). destruct (K6' d Hd) as [_ Q].
       assert (T : negb (d_order d) && (res_builtAt r <? res_computedAt (get (st_mem s1) (d_key d))) = false).
